@@ -768,6 +768,31 @@ func init() {
 				t.FindCellsByText("a", false)
 			}
 		}},
+		{"Markdown", 2, func(s *Script) {
+			// the Markdown converter and exporter are part of the public surface: a converted document continues the
+			// script, an export of the current document must not disturb it
+			r := s.R
+			if r.Bool() {
+				core.Catch(func() {
+					markdown.NewExporter(nil).ExportToString(s.Doc, nil)
+				})
+				return
+			}
+			if s.NoReopen {
+				return
+			}
+			var sb strings.Builder
+			for i, n := 0, r.Range(1, 6); i < n; i++ {
+				sb.WriteString(r.Pick(mdSnippets))
+			}
+			opts := markdown.DefaultOptions()
+			opts.EnableMath, opts.EnableTables, opts.GenerateTOC = r.Bool(), r.Bool(), r.Bool()
+			d2, err := markdown.NewConverter(opts).ConvertString(sb.String(), nil)
+			if err != nil || d2 == nil || d2.Body == nil {
+				return
+			}
+			s.adopt(d2)
+		}},
 		{"Reopen", 3, func(s *Script) {
 			if s.NoReopen {
 				return
